@@ -4,6 +4,8 @@
 #include <sys/mman.h>
 #include <fcntl.h>
 using namespace vf;
+#include <malloc.h>
+static std::string ledger_dump() { std::string r = std::to_string(guard_live().size()) + " live:"; int n = 0; for (void *p : guard_live()) { if (n++ > 6) break; size_t u = malloc_usable_size(p); r += " [" + std::to_string(u) + ":" + jstr(std::string((const char *)p, u < 24 ? u : 24)) + "]"; } return r; }
 
 static Pool &POOL = *new Pool;
 static std::string GOOD_OCT;  // a good key to pre-populate sets with
@@ -44,7 +46,7 @@ static void use_item(const jwk_item_t *it) {
     if (!consistent && jwks_item_pem(it)) { EVP_PKEY *pk = pem_to_pkey(jwks_item_pem(it), true); if (pk) { EVP_PKEY_CTX *c = EVP_PKEY_CTX_new_from_pkey(nullptr, pk, nullptr); consistent = c && EVP_PKEY_pairwise_check(c) == 1; EVP_PKEY_CTX_free(c); EVP_PKEY_free(pk); ERR_clear_error(); } }
     if (consistent) {
       jwt_builder_t *b = jwt_builder_new();
-      if (a != JWT_ALG_NONE && a < JWT_ALG_INVAL && !jwt_builder_setkey(b, jwks_item_alg(it) == a ? JWT_ALG_NONE : a, it)) { char *t = jwt_builder_generate(b); free(t); }
+      if (a != JWT_ALG_NONE && a < JWT_ALG_INVAL && !jwt_builder_setkey(b, jwks_item_alg(it) == a ? JWT_ALG_NONE : a, it)) { char *t = jwt_builder_generate(b); app_free(t); }
       jwt_builder_free(b);
     }
   }
@@ -58,9 +60,10 @@ static bool G_POLLUTE = false;
 static void load_with_oracle(int entry, int prov, const std::string &bytes, bool guard = false, bool pollute = false) {
   G_POLLUTE = pollute;
   jwt_set_alloc(NULL, NULL);
-  if (guard) { guard_foreign_frees() = 0; jwt_set_alloc(guard_malloc, guard_free); fs().cls("with-application-allocator"); }
+  size_t ledger0 = guard_live().size();
+  if (guard) { guard_active() = true; guard_foreign_frees() = 0; jwt_set_alloc(guard_malloc, guard_free); fs().cls("with-application-allocator"); }
   load_with_oracle_inner(entry, prov, bytes);   // every jansson object of the oracle dies inside
-  if (guard) { jwt_set_alloc(NULL, NULL); if (guard_foreign_frees()) oracle_fail("pointer-not-from-installed-allocator-passed-to-its-free", "entry=" + std::to_string(entry) + " doc=" + bytes.substr(0, 400)); }
+  if (guard) { jwt_set_alloc(NULL, NULL); guard_active() = false; if (guard_foreign_frees()) oracle_fail("pointer-not-from-installed-allocator-passed-to-its-free", "entry=" + std::to_string(entry) + " doc=" + bytes.substr(0, 400)); if (guard_live().size() != ledger0) oracle_fail("block-from-installed-allocator-never-returned-to-it", ledger_dump() + " entry=" + std::to_string(entry) + " doc=" + bytes.substr(0, 400)); }
 }
 static void load_with_oracle_inner(int entry, int prov, const std::string &bytes) {
   FStats &st = fs();
